@@ -411,6 +411,8 @@ TREES = {
     "small": {"a": {"f": None}, "b": None},
     "links": {"a": {"f": None, "up": ("link", "root"), "tob": ("link", "root/b")}, "b": {"g": None, "toa_f": ("link", "root/a/f")},
               "dangling": ("link", None), "lf": ("link", "root/b/g")},
+    # names that are not valid UTF-8 (U+E080..U+E0FF stand for the raw bytes 0x80..0xFF, see harness os_name)
+    "bytes": {"a": {"caf\ue0e9.txt": None, "x\ue0ff": {"g.txt": None}}, "\ue080dir": {"f": None, "h.txt": None}, "f": None},
     "faults": {"a": {"f": None}, "locked": ("locked", {"s": None}), "z": {"deep": ("locked", {}), "g": None}, "dangling": ("link", None)},
 }
 
